@@ -21,6 +21,14 @@ SCENARIOS = [
     sc("VerifC09_S1x1_U1_B1", "C09.a 1 sender x1, 1 subscriber, buffer 1", "1 sender x 1 trace, 1 joining/leaving subscriber with buffer 1 taking 0..1", eo=EO[:2], tiers=T),
     sc("VerifC09_S1x2_U0", "C09.a 1 sender x2", "1 sender x 2 traces, reference subscriber only", eo=EO[:2] + ["each sender's program order is preserved"]),
     sc("VerifC09_S2x1_U0", "C09.a 2 senders x1", "2 senders x 1 trace, reference subscriber only", eo=EO[:2]),
+    sc("VerifC09_Slow_S1x2_B0", "C09.a slow unbuffered subscriber, 1 sender x2", "1 sender x 2 traces, subscriber with buffer 0 joined up-front, consumer lags arbitrarily",
+       eo=["a subscriber that stays subscribed receives every trace exactly once", "each sender's program order is preserved"]),
+    sc("VerifC09_Slow_S1x2_B1", "C09.a slow subscriber with buffer 1, 1 sender x2", "1 sender x 2 traces, subscriber with buffer 1, consumer lags arbitrarily",
+       eo=["a subscriber that stays subscribed receives every trace exactly once", "each sender's program order is preserved"]),
+    sc("VerifC09_SendAfterCancel", "C09.a trace sent after cancellation by a registered sender", "context cancelled, then a registered sender sends one trace and reports Done", tiers=T,
+       eo=["traces sent by a registered sender before it reports Done are delivered even after cancellation"]),
+    sc("VerifC09_Slow_S1x3_B1", "C09.a slow subscriber with buffer 1, 1 sender x3", "1 sender x 3 traces, buffer 1", tiers=T,
+       eo=["a subscriber that stays subscribed receives every trace exactly once", "each sender's program order is preserved"]),
     sc("VerifC09_S1x2_U1_B0", "C09.a 1 sender x2, 1 subscriber, unbuffered", "1 sender x 2 traces, 1 joining/leaving subscriber with buffer 0 taking 0..2", tiers=T),
     sc("VerifC09_S2x1_U1_B1", "C09.a 2 senders x1, 1 subscriber, buffer 1", "2 senders x 1 trace, 1 joining/leaving subscriber with buffer 1 taking 0..2", tiers=T),
     sc("VerifC09_S2x1_U1_B0", "C09.a 2 senders x1, 1 subscriber, unbuffered", "2 senders x 1 trace, 1 subscriber buffer 0 taking 0..2", tiers=T),
